@@ -26,7 +26,7 @@ ASSUMPTIONS = [
     'the non-verbose argument iterator yields exactly 4 bytes for the first argument (checked structurally under C18 D2 for the slice, relied upon here)',
 ]
 MANIFEST = {'text': 'decides four recurring crash idioms exactly (which construct, which guard) and keeps a ledger of explicit panics; reports the count of panic-capable sites no rule speaks about so that green is not read as "cannot crash".'
-                    ' Added: every integer division has a non-zero divisor (constant, guard, or field invariant over all writers); cursor/remaining-bytes parsers keep both in lockstep and read only behind a fresh `remaining >= size` test.',
+                    ' Added: every integer division has a non-zero divisor (constant, guard, or field invariant over all writers); cursor/remaining-bytes parsers keep both in lockstep and read only behind a fresh `remaining >= size` test. Added: for every combination of type bits the renderer branch that indexes the raw value without its own length test is covered by the class the argument iterator validated the length for (exhaustive over the type bits of the two if-chains).',
             'technique': 'static analysis: dominating-guard (deviance) rules, explicit-panic ledger, backward provenance for allocation sizes'}
 
 UNWRAP = ('std::option::Option::<T>::unwrap', 'std::option::Option::<T>::expect')
@@ -68,6 +68,8 @@ def run(F, chk):
     check_b6(lib, B6)
     B7 = chk.rule('B7', 'argument type dispatch: for every combination of type bits the branch the renderer takes is covered by the class the argument iterator validated the length for')
     check_dispatch_agreement(F, B7)
+    B8 = chk.rule('B8', 'fixed tables indexed by an enum value (`TABLE[kind as usize]`) have more entries than the largest discriminant of that enum')
+    check_enum_indexed_tables(F, lib, B8)
     # census of what no rule speaks about
     census = {}
     for b in lib:
@@ -504,6 +506,8 @@ def check_b3(lib, B3):
                 why = phi_bounded_ssa(cfg, b, blk)
             if why is None:
                 why = counter_tested_nonzero(cfg, E, b, blk)
+            if why is None:
+                why = callee_capped(lib, cfg, b, blk)
             key = (b.path, re.sub(r'_\d+', '_tmp', show(a)[:60]), re.sub(r'_\d+', '_tmp', show(bb)[:60]))
             if why is None and key in B3_LEDGER:
                 why = 'ledger: ' + B3_LEDGER[key]
@@ -514,6 +518,45 @@ def check_b3(lib, B3):
                              'unsigned subtraction %s - %s at %s in time/size code has no dominating guard, clamp or ledger entry: a crafted value (timestamp beyond the reception time, zero length, ...) panics with overflow' % (show(a)[:60], show(bb)[:60], b.loc(blk.term.sp)),
                              where=b.loc(blk.term.sp))
     B3.floor('unsigned subtractions in lifecycle/sort/control-message/argument-rendering code', n, 20)
+
+
+def callee_capped(lib, cfg, b, blk):
+    """`m.reception_time_us - key_for(&m)`: the subtrahend is the result of a closure / private function of the crate called with
+    the message whose reception time is the minuend, and every value that callee returns is that message's reception time or
+    guarded `<= reception time` inside the callee"""
+    import c10
+    E2 = ExprBuilder(cfg, fold_named=True)
+    a = E2.operand(Operand(blk.term.d['ops'][0]))
+    o = Operand(blk.term.d['ops'][1])
+    if o.place is None or not o.place.is_local or o.place.p:
+        return None
+    l = o.place.l
+    for _ in range(3):
+        sd = cfg.single_def(l)
+        if sd is not None and sd[1] != 'call' and sd[2].rv['k'] == 'use' and Operand(sd[2].rv['o']).place is not None and Operand(sd[2].rv['o']).place.is_local and not Operand(sd[2].rv['o']).place.p:
+            l = Operand(sd[2].rv['o']).place.l
+    sd = cfg.single_def(l)
+    if sd is None or sd[1] != 'call' or not sd[2].callee.resolved:
+        return None
+    H = next((x for x in lib if x.path == sd[2].callee.resolved), None)
+    if H is None or not (isinstance(a, tuple) and a[0] in ('place', 'proj') and a[-1] == '.reception_time_us'):
+        return None
+    msg = a[:-1]
+    passed = False
+    for arg in sd[2].args:
+        for x in walk(E2.operand(arg)):
+            if isinstance(x, tuple) and x and x[0] == 'ref':
+                y = x[1]
+                while isinstance(y, tuple) and y[0] == 'proj' and len(y) == 2:
+                    y = y[1]
+                if y == msg:
+                    passed = True
+    if not passed:
+        return None
+    hcfg = CFG(H)
+    if c10.phi_capped_local(hcfg, ExprBuilder(hcfg, fold_named=True), H, 0):
+        return 'the subtrahend is computed by %s from the same message and capped at its reception time there' % H.path.split('::')[-1]
+    return None
 
 
 def message_sized_fields(lib):
@@ -1076,3 +1119,57 @@ def check_dispatch_agreement(F, B7):
         B7.ok(sample={'iterator_order': ['0x%x' % m for (m, _p) in iclasses], 'renderer_order': ['0x%x' % m for m in rmasks], 'combinations_checked': (1 << len(bits)) - 1,
                       'renderer_branches_relying_on_the_iterator': ['0x%x' % m for m, v in needs.items() if v],
                       'each': 'renderer branch covered by the iterator class'})
+
+
+# ---------------------------------------------------------------------------------------------
+# B8: enum-indexed name tables cover the enum
+
+def check_enum_indexed_tables(F, lib, B8):
+    """`NW_TYPE_STRS[nt as usize]`: the bounds check of a fixed-size array (constant length N) whose index is the discriminant of an
+    enum of the crate cast to an integer.  The enum's values come from message bytes (`from(mtin)`), so every variant is
+    reachable: the largest discriminant must be < N.  Adding a variant without extending the table compiles and panics at the
+    first such message."""
+    n = 0
+    for b in lib:
+        cfg = E = None
+        for blk in b.blocks:
+            if blk.cleanup or blk.term.k != 'assert' or blk.term.d['ak'] != 'BoundsCheck':
+                continue
+            ln, ix = Operand(blk.term.d['ops'][0]), Operand(blk.term.d['ops'][1])
+            if not ln.is_const or not isinstance(ln.value, int):
+                continue
+            cfg = cfg or CFG(b)
+            # the index: a cast of discriminant(place of enum type)
+            if ix.place is None or not ix.place.is_local:
+                continue
+            sd = cfg.single_def(ix.place.l)
+            enum_ty = None
+            hops = 0
+            while sd is not None and sd[1] != 'call' and hops < 4:
+                rv = sd[2].rv
+                if rv['k'] == 'discr':
+                    enum_ty = rv['p'].get('t')
+                    break
+                if rv['k'] in ('cast', 'use') and Operand(rv['o']).place is not None and Operand(rv['o']).place.is_local and not Operand(rv['o']).place.p:
+                    sd = cfg.single_def(Operand(rv['o']).place.l)
+                    hops += 1
+                    continue
+                break
+            if not enum_ty:
+                continue
+            adt = F.adts.get(enum_ty.split('<')[0])
+            if adt is None or not adt.get('enum'):
+                continue
+            ds = [v.get('d') for v in adt['variants']]
+            if any(d is None for d in ds):
+                continue
+            n += 1
+            B8.sites += 1
+            B8.fn(b.path)
+            mx = max(ds) if ds else -1
+            if mx < ln.value:
+                B8.ok(sample={'function': b.path, 'at': b.loc(blk.term.sp), 'table_entries': ln.value, 'enum': enum_ty, 'largest_discriminant': mx})
+            else:
+                B8.violation(('enum-table-too-short', b.path, enum_ty.split('::')[-1]), '%s indexes a table of %d entries with a value of %s at %s, whose largest discriminant is %d (%s): a message carrying that kind panics with index out of bounds' %
+                             (b.path, ln.value, enum_ty, b.loc(blk.term.sp), mx, [v['n'] for v in adt['variants'] if v.get('d') == mx][0]), where=b.loc(blk.term.sp))
+    B8.floor('enum-indexed fixed tables in the library', n, 3)
